@@ -54,6 +54,14 @@ func (r *renderer) localAliasLine(s *Site) {
 
 // ref renders a type mention.
 func (r *renderer) ref(tr *TypeRef) string {
+	if tr.Ptr && tr.ViaPtr != nil && !tr.ParenAll {
+		// type PAl = *T (decided first: naming T would register an import the file may not need)
+		wrap := tr.Wrap
+		if tr.WrapKey != nil && wrap == "map[string]" {
+			wrap = "map[" + r.tname(tr.WrapKey) + "]"
+		}
+		return wrap + r.tname(tr.ViaPtr)
+	}
 	base := ""
 	if tr.Via != nil {
 		base = r.tname(tr.Via)
@@ -80,6 +88,7 @@ func (r *renderer) ref(tr *TypeRef) string {
 func (r *renderer) refNoPtr(tr *TypeRef) string {
 	c := *tr
 	c.Ptr = false
+	c.ViaPtr = nil
 	c.Wrap, c.WrapKey = "", nil
 	return r.ref(&c)
 }
@@ -715,6 +724,9 @@ func (r *renderer) siteText(s *Site) (string, []string) {
 		}
 	case "varptr":
 		text = fmt.Sprintf("%s%s *%s", varkw, s.Local, r.refNoPtr(s.Ref))
+		if s.Ref.ViaPtr != nil {
+			text = fmt.Sprintf("%s%s %s", varkw, s.Local, r.tname(s.Ref.ViaPtr))
+		}
 		if inFunc {
 			after = append(after, "_ = "+s.Local)
 		}
